@@ -1,7 +1,7 @@
 import json,sys
 tag=sys.argv[1]; theme=sys.argv[2]
 props=[json.loads(l) for l in open('/verif/properties.jsonl')]
-wt=f"/tmp/wt/seed9-{tag}"
+wt=f"/tmp/wt/seed10-{tag}"
 plist="\n".join(f"[{p['id']}] {p['title']}: {p['statement']}" for p in props)
 avoid=open('/tmp/wt/avoid.txt').read()
 print(f"""You are helping test a verification tool by writing realistic *seeded defects* for a Rust library. Work ONLY inside the scratch git worktree {wt} (a checkout of google/omaha-client: Rust client library for Google's Omaha update protocol; crates omaha-client and mock-omaha-server). Do not read or write anything under /verif or /repo. The sandbox is offline: always use `cargo ... --offline` and set CARGO_NET_OFFLINE=true; use `-j 6` to limit parallelism.
